@@ -824,3 +824,43 @@ def bool_fn_is(F, fn, atom_rx, negated=False):
     a = atoms[0]
     ok = table[frozenset([a])] == (not negated) and table[frozenset()] == negated
     return ok, "result is %s%s" % ("" if table[frozenset([a])] else "!", a)
+
+
+def unlet(n, env=None, _mut=None):
+    """copy of n in which immutable single-assignment locals (`let x = e;`) are replaced by their initialisers and the `let`
+    removed — a normal form for data-flow rules that should not depend on which intermediate values were given names.
+    Not order-preserving: use only where the rule does not depend on the evaluation order of the initialisers."""
+    if _mut is None:
+        _mut = set()
+        for x in walk(n):
+            if x.get("k") in ("assign", "assignop"):
+                lid = local_id(strip(x["l"]))
+                if lid is not None:
+                    _mut.add(lid)
+            if x.get("k") == "ref" and x.get("mut"):
+                lid = local_id(strip(x["e"]))
+                if lid is not None:
+                    _mut.add(lid)
+    env = env or {}
+    if isinstance(n, list):
+        return [unlet(x, env, _mut) for x in n]
+    if not isinstance(n, dict):
+        return n
+    if n.get("k") == "path" and n.get("res", {}).get("r") == "local" and n["res"].get("id") in env:
+        return env[n["res"]["id"]]
+    if n.get("k") == "block":
+        env2 = dict(env)
+        stmts = []
+        for st in n.get("stmts", []):
+            pat = st.get("pat", {}) if st.get("k") == "let" else {}
+            if st.get("k") == "let" and pat.get("k") == "bind" and "sub" not in pat and st.get("init") is not None and st.get("els") is None \
+                    and "Mut" not in str(pat.get("mode", "")) and pat["id"] not in _mut:
+                env2[pat["id"]] = unlet(st["init"], env2, _mut)
+                continue
+            stmts.append(unlet(st, env2, _mut))
+        out = dict(n)
+        out["stmts"] = stmts
+        if n.get("expr") is not None:
+            out["expr"] = unlet(n["expr"], env2, _mut)
+        return out
+    return {k: unlet(v, env, _mut) for k, v in n.items()}
